@@ -74,6 +74,7 @@ def run(ctx):
     r.load_table("c01.json")
     r.rule("C01.construct", "code tokens are created only by structure rules, and only as documented redundant elements with the parser's own literal")
     r.rule("C01.wholesale", "whole-region replacements are enumerated with their guards and each is shown to delete only layout or the documented item")
+    r.rule("C01.wsvalue", "a whitespace value is written only into a token shown to be whitespace (class test on the same token, a freshly created whitespace token, or a tabled position whose analysis side was read)")
     r.rule("C01.literal-guard", "case rules skip string/character literals and extended identifiers")
     r.rule("C01.splice", "single writer of the token list; consistent splice bounds and order")
     r.rule("C01.late-phases", "capitalisation fixes are structurally inert; naming/length report-only")
@@ -106,6 +107,7 @@ def run(ctx):
 
     _layout_predicate(r, p, "C01.wholesale")  # several table reasons above rest on it
     _bound_extensions(r, p)
+    _wsvalue(r, p, fx, cg.reachable(fix_roots))
     if n_whole < 15:
         raise AnalysisError("only %d whole-region replacement sites found" % n_whole)
 
@@ -254,6 +256,82 @@ def run(ctx):
     return r
 
 
+def _end_relative(text):
+    """x[len(x) - k] written as x[-k]"""
+    try:
+        tree = ast.parse(text, mode="eval")
+    except SyntaxError:
+        return text
+
+    class T(ast.NodeTransformer):
+        def visit_Subscript(self, node):
+            self.generic_visit(node)
+            sl = node.slice
+            if isinstance(sl, ast.BinOp) and isinstance(sl.op, ast.Sub) and isinstance(sl.right, ast.Constant) and isinstance(sl.right.value, int) and sl.right.value > 0:
+                if isinstance(sl.left, ast.Call) and norm(sl.left.func) == "len" and len(sl.left.args) == 1 and norm(sl.left.args[0]) == norm(node.value):
+                    node.slice = ast.UnaryOp(op=ast.USub(), operand=ast.Constant(value=sl.right.value))
+            return node
+
+    return norm(T().visit(tree).body)
+
+
+def _wsvalue(r, p, fx, reach):
+    """`tok.set_value(<blanks>)` deletes `tok` from the written file unless tok is a whitespace token.  Every such call in
+    rule code reachable from a fix is listed with its receiver; the receiver must be class-tested in the same function
+    (the test dominates the call), be a whitespace token created in the function, or be a tabled position."""
+    from ..fixeffects import is_ws_expr, ws_locals
+    from ..flow import Facts
+    from ..model import expand_text
+
+    n_sites = n_proved = 0
+    for k in sorted(reach):
+        fi = p.functions[k]
+        if not fi.module.name.startswith("vsg.rules"):
+            continue
+        calls = [c for c in walk_function(fi.node) if isinstance(c, ast.Call) and isinstance(c.func, ast.Attribute) and c.func.attr == "set_value" and len(c.args) == 1]
+        if not calls:
+            continue
+        ws = ws_locals(fi)
+        facts = None
+        for c in calls:
+            kind = fx._classify_value(fi, c.args[0], ws)
+            if kind.startswith("ACTION:"):
+                okw, _ = fx.action_key_is_ws(fi.module, kind.split(":", 1)[1])
+                if not okw:
+                    continue
+            elif kind != "WS":
+                continue
+            n_sites += 1
+            recv = _end_relative(expand_text(fi, c.func.value))
+            kk = "%s:set_value-blank:%s" % (fi.key, recv)
+            if facts is None:
+                facts = Facts(fi.node)
+            tested = False
+            for t, pol in facts.conds_at(c):
+                if pol is True and t.startswith("isinstance("):
+                    try:
+                        tc = ast.parse(t, mode="eval").body
+                    except SyntaxError:
+                        continue
+                    if isinstance(tc, ast.Call) and len(tc.args) == 2 and norm(tc.args[1]).endswith("whitespace") and _end_relative(expand_text(fi, tc.args[0])) == recv:
+                        tested = True
+            fresh = False
+            if isinstance(c.func.value, ast.Name):
+                vals = [a.value for a in walk_function(fi.node) if isinstance(a, ast.Assign) and len(a.targets) == 1 and norm(a.targets[0]) == c.func.value.id]
+                fresh = bool(vals) and all(isinstance(v, ast.Call) and norm(v.func).endswith("parser.whitespace") for v in vals)
+            if tested or fresh:
+                n_proved += 1
+                r.ok("C01.wsvalue", kk, "the receiver is class-tested whitespace on every path to the call" if tested else "the receiver is a whitespace token created in this function", sample=False)
+            elif r.tabled("C01.wsvalue", kk):
+                r.ok("C01.wsvalue", kk, "tabled: " + r.tabled("C01.wsvalue", kk).get("reason", "")[:120], sample=False)
+            else:
+                r.fail("C01.wsvalue", kk, "`%s` writes blanks into `%s`, which nothing shows to be a whitespace token at this point: if it is a code token it disappears from the written file" % (norm(c)[:60], recv), fi.loc(c))
+    r.extra["blank_value_writes"] = n_sites
+    r.extra["blank_value_writes_class_tested"] = n_proved
+    if n_sites < 10:
+        raise AnalysisError("only %d writes of a whitespace value found in fix code" % n_sites)
+
+
 def _bound_extensions(r, p):
     """Region extractors that widen a bound by a constant (`lEnd[i] += 1` while iterating lEnd) add one more position to a
     region that a fix may then delete wholesale (label removal uses include_trailing_whitespace).  The added position must
@@ -345,6 +423,16 @@ def _paren_pair(code, x):
 
 
 VARIANTS = [
+    Variant("C01", "right-hand blank adjustment addressed by a fixed front index", "fire",
+            [("vsg/rules/n_spaces_before_and_after_tokens.py", "                    lTokens[-1].set_value(\" \" * self.iSpaces)", "                    lTokens[2].set_value(\" \" * self.iSpaces)")],
+            rule="C01.wsvalue", key="oViolation.get_tokens()[2]"),
+    Variant("C01", "twin: right-hand neighbour addressed as len - 1", "silent",
+            [("vsg/rules/n_spaces_before_and_after_tokens.py", "                    lTokens[-1].set_value(\" \" * self.iSpaces)", "                    lTokens[len(lTokens) - 1].set_value(\" \" * self.iSpaces)")]),
+    Variant("C01", "blanks written in front of when/else without the whitespace test (0db7d48 reverted)", "fire",
+            [("vsg/rules/multiline_conditional_alignment.py", "    if isinstance(lTokens[0], parser.whitespace):\n        iSpace = len(lTokens[0].get_value())", "    if True:\n        iSpace = len(lTokens[0].get_value())")],
+            rule="C01.wsvalue", key="_adjust_whitespace_before_keyword"),
+    Variant("C01", "twin: class-tested receiver held in a local", "silent",
+            [("vsg/rules/multiline_conditional_alignment.py", "    if isinstance(lTokens[0], parser.whitespace):\n        iSpace = len(lTokens[0].get_value())\n        iNewSpace = iSpace + iAdjust\n        lTokens[0].set_value(\" \" * iNewSpace)", "    oLeft = lTokens[0]\n    if isinstance(oLeft, parser.whitespace):\n        iSpace = len(oLeft.get_value())\n        iNewSpace = iSpace + iAdjust\n        oLeft.set_value(\" \" * iNewSpace)")]),
     Variant("C01", "trailing-whitespace extension tests `any later whitespace` instead of the next position", "fire",
             [("vsg/vhdlFile/extract/get_tokens_bounded_by.py", "            if iIndex + 1 in lWhiteSpace:", "            if oTokenMap.get_index_of_token_after_index(parser.whitespace, iIndex) is not None:")], rule="C01.wholesale"),
     Variant("C01", "twin: trailing-whitespace extension asks the token map about the next position", "silent",
